@@ -41,15 +41,23 @@ static const char* const rep_names[] = {"none", "rectangular2x2", "regular2x2", 
 static const char* const refrep_names[] = {"none", "rectangular2x3", "regular_aligned2x3", "regular_skew2x3", "explicit"};
 static const char* const props_names[] = {"none", "1:a", "2:ab", "1:a+2:ab"};
 static const char* const end_names[] = {"flush", "half_width", "extended", "round"};
-static const char* const rot_names[] = {"0", "pi/2", "pi", "0.3"};
+// rotations 4..8 are the doubles r for which r * (180.0 / M_PI) -- the ANGLE value gdstk stores -- is exactly a
+// power of 16 in degrees (boundary of the base-16 exponent of the GDSII 8-byte real), see angle_for_degrees()
+static const char* const rot_names[] = {"0", "pi/2", "pi", "0.3", "16deg", "256deg", "1/16deg", "1deg", "-16deg"};
+static const double rot_degrees[] = {0, 90, 180, 0, 16, 256, 0.0625, 1, -16};
+// magnifications 2..6 are exact powers of 16 (same boundary for the MAG record)
+static const double mag_boundary[] = {16, 256, 1.0 / 16, 1.0 / 256, 4096};
 // transformations applied to a path after construction and before saving (scale_width is set first)
 static const char* const xf_names[] = {"none", "scale(3,(0.0054,0.0023)) scale_width=false", "scale(0.5,(0.0054,0.0023)) scale_width=true", "mirror((0,0),(1,0)) scale_width=true",
                                        "mirror((1,0),(3,1)) scale_width=false", "rotate(0.6,(0,0)) scale_width=true", "transform(2,x_reflection,0.3,(1,-2)) scale_width=true",
                                        "transform(2,x_reflection,0.3,(1,-2)) scale_width=false"};
 static const bool xf_scale_width[] = {true, false, true, true, false, true, true, false};
 static const int anchors[] = {0, 1, 2, 4, 5, 6, 8, 9, 10};
-static const double lib_units[][2] = {{1e-6, 1e-9}, {1e-6, 5e-10}, {1e-3, 1e-6}, {1, 1e-3}};
-static const double lib_nominal_scaling[] = {1000, 2000, 1000, 1000};
+// 4..9: the UNITS record holds precision/unit and precision; these make one or both an exact power of 16
+static const double lib_units[][2] = {{1e-6, 1e-9}, {1e-6, 5e-10}, {1e-3, 1e-6}, {1, 1e-3},
+                                      {1e-6, 1e-6}, {1, 1}, {1e-6, 1e-6 / 16}, {1e-6, 1e-6 / 256}, {1, 1.0 / 16}, {1, 1.0 / 256}};
+static const double lib_nominal_scaling[] = {1000, 2000, 1000, 1000, 1, 1, 16, 256, 16, 256};
+static const int lib_count = 10;
 
 struct Elem {
     int kind = POLYGON;
@@ -60,7 +68,7 @@ struct Elem {
     int sw = 1;        // scale_width (simple paths)
     int anchor = 0;    // index into anchors (labels)
     int rot = 0;       // index into rot_names (labels use 0, 1, 3)
-    int mag = 0;       // 0: 1.0; 1: 2.5 (labels) / 0.5 (references)
+    int mag = 0;       // 0: 1.0; 1: 2.5 (labels) / 0.5 (references); 2..6: mag_boundary[mag - 2]
     int refl = 0;      // x_reflection
     int textpar = 0;   // label text: 0 "A" (odd), 1 "AB" (even)
     int target = 0;    // reference: 0 cell of the library by pointer, 1 absent cell by name
@@ -75,8 +83,21 @@ struct LibSpec {
     std::vector<Elem> elems;
 };
 
-inline double rot_value(int r) { return r == 0 ? 0.0 : r == 1 ? 0.5 * M_PI : r == 2 ? M_PI : 0.3; }
-inline double mag_value(const Elem& e) { return e.mag == 0 ? 1.0 : e.kind == LABEL ? 2.5 : 0.5; }
+// the double r closest to deg*pi/180 whose stored ANGLE value r * (180.0 / M_PI) is exactly deg (searched among
+// the neighbouring doubles; falls back to the nearest double if none exists)
+inline double angle_for_degrees(double deg) {
+    const double r0 = deg * (M_PI / 180.0);
+    double lo = r0, hi = r0;
+    for (int k = 0; k < 16; k++) {
+        if (lo * (180.0 / M_PI) == deg) return lo;
+        if (hi * (180.0 / M_PI) == deg) return hi;
+        lo = nextafter(lo, -INFINITY);
+        hi = nextafter(hi, INFINITY);
+    }
+    return r0;
+}
+inline double rot_value(int r) { return r == 0 ? 0.0 : r == 1 ? 0.5 * M_PI : r == 2 ? M_PI : r == 3 ? 0.3 : angle_for_degrees(rot_degrees[r]); }
+inline double mag_value(const Elem& e) { return e.mag == 0 ? 1.0 : e.mag >= 2 ? mag_boundary[e.mag - 2] : e.kind == LABEL ? 2.5 : 0.5; }
 inline const char* lib_name(int namepar) { return namepar ? "LIBR" : "LIB"; }
 inline const char* top_name(int namepar) { return namepar ? "TOPC" : "TOP"; }
 inline const char* kid_name(int namepar) { return namepar ? "KIDS" : "KID"; }
@@ -112,6 +133,8 @@ struct Frame {
     int coord;
     double snom;                      // nominal unit/precision (1000 or 2000)
     Vec2 minoff{0, 0}, maxoff{0, 0};  // extreme repetition offsets of the element
+    // k "millis": k/1000 user units for the libraries whose grid is 1 or 1/2 milli, otherwise k database units
+    double mm(double k) const { return snom >= 1000 ? k / 1000.0 : k / snom; }
     double xmin() const { return -2147483648.0 / snom - minoff.x; }
     double ymin() const { return -2147483648.0 / snom - minoff.y; }
     double xmax() const { return 2147483647.0 / snom - maxoff.x; }
@@ -120,12 +143,12 @@ struct Frame {
         switch (coord) {
             case HALF: return Vec2{(kx - 25) / 8.0 + 0.0625, (ky - 15) / 16.0 + 0.03125};
             case EXTMIN:
-            case EXTSPAN: return Vec2{xmin() + kx / 1000.0, ymin() + ky / 1000.0};
-            default: return Vec2{(kx - 20) / 1000.0, (ky - 10) / 1000.0};
+            case EXTSPAN: return Vec2{xmin() + mm(kx), ymin() + mm(ky)};
+            default: return Vec2{mm(kx - 20), mm(ky - 10)};
         }
     }
     // a length of k millis (PLAIN/EXT*) or k/32 (HALF: k = 1 gives half a grid step as a full width 2k/32 at scaling 1000)
-    double len(int k) const { return coord == HALF ? k / 32.0 : k / 1000.0; }
+    double len(int k) const { return coord == HALF ? k / 32.0 : mm(k); }
 };
 // repetition offsets: millis, or for HALF multiples of 1/8 (so that a half-grid vertex stays half-grid in every copy).
 // Offsets are chosen so that the copies of every polygon / path outline of the corpus are pairwise disjoint.
@@ -157,9 +180,9 @@ inline void set_repetition(Repetition& r, int rep, int coord) {
     }
 }
 // lattices of references (columns 2, rows 3; pitches a, b along the rotated axes when aligned)
-inline void set_ref_repetition(Repetition& r, int rep, int coord, double rotation) {
+inline void set_ref_repetition(Repetition& r, int rep, int coord, double rotation, double snom = 1000) {
     r = Repetition{};
-    const double a = coord == HALF ? 20 / 32.0 : 0.020, b = coord == HALF ? 1.0 : 0.030;
+    const double a = coord == HALF ? 20 / 32.0 : snom >= 1000 ? 0.020 : 20 / snom, b = coord == HALF ? 1.0 : snom >= 1000 ? 0.030 : 30 / snom;
     switch (rep) {
         case 1:
             r.type = RepetitionType::Rectangular; r.columns = 2; r.rows = 3; r.spacing = Vec2{a, b};
@@ -252,7 +275,7 @@ inline void apply_xf(Path* p, int xf) {
 inline void add_element(Cell* cell, Cell* kid, const Elem& e, const LibSpec& s) {
     Frame f{e.coord == EXTSPAN && e.kind != POLYGON ? EXTMIN : e.coord, lib_nominal_scaling[s.libcfg]};
     Repetition rep = {};
-    if (e.kind == REFERENCE) set_ref_repetition(rep, e.rep, f.coord, rot_value(e.rot));
+    if (e.kind == REFERENCE) set_ref_repetition(rep, e.rep, f.coord, rot_value(e.rot), f.snom);
     else set_repetition(rep, e.rep, f.coord);
     if (e.kind == POLYGON && e.n >= 1000 && rep.type == RepetitionType::Rectangular) rep.spacing.x = 40.0;  // the comb is 32.8 units wide
     offset_extent(rep, f.minoff, f.maxoff);
@@ -369,9 +392,10 @@ inline Library* build(const LibSpec& s) {
             Polygon* p = (Polygon*)allocate_clear(sizeof(Polygon));
             p->tag = make_tag(1, 1);
             p->point_array.append(Vec2{0, 0});
-            p->point_array.append(Vec2{0.004, 0});
-            p->point_array.append(Vec2{0.004, 0.003});
-            p->point_array.append(Vec2{0, 0.003});
+            const double sn = lib_nominal_scaling[s.libcfg], kx = sn >= 1000 ? 0.004 : 4 / sn, ky = sn >= 1000 ? 0.003 : 3 / sn;
+            p->point_array.append(Vec2{kx, 0});
+            p->point_array.append(Vec2{kx, ky});
+            p->point_array.append(Vec2{0, ky});
             kid->polygon_array.append(p);
             lib->cell_array.append(kid);
         }
@@ -409,6 +433,10 @@ inline const std::vector<Family>& families() {
         {"robustpath.simple.transformed", ROBUST_SIMPLE, {"libcfg", "end2", "off", "n", "xf"}, {4, 2, 2, 2, 7}},
         {"flexpath.outline.transformed", FLEX_OUTLINE, {"libcfg", "n", "xf"}, {4, 2, 7}},
         {"robustpath.outline.transformed", ROBUST_OUTLINE, {"libcfg", "n", "xf"}, {4, 2, 7}},
+        // boundary values of the GDSII 8-byte real (exact powers of 16) in MAG, ANGLE and UNITS
+        {"reference.real8", REFERENCE, {"rep2", "refl", "mag7", "rot9"}, {2, 2, 7, 9}},
+        {"label.real8", LABEL, {"refl", "mag7", "rot9"}, {2, 7, 9}},
+        {"library.real8", POLYGON, {"libcfgx", "coord2", "elemvar"}, {6, 2, 7}},
     };
     return F;
 }
@@ -447,6 +475,19 @@ inline LibSpec decode(const Family& fam, int64_t idx, bool heavy) {
         else if (d == "rot") e.rot = fam.kind == LABEL ? (x == 2 ? 3 : x) : x;
         else if (d == "anchor") e.anchor = x;
         else if (d == "target") e.target = x;
+        else if (d == "rep2") e.rep = x;  // none, rectangular 2x3
+        else if (d == "mag7") e.mag = x;
+        else if (d == "rot9") e.rot = x;
+        else if (d == "libcfgx") s.libcfg = 4 + x;
+        else if (d == "coord2") e.coord = x ? EXTMIN : PLAIN;
+        else if (d == "elemvar") {
+            static const int kinds[] = {POLYGON, POLYGON, POLYGON, FLEX_SIMPLE, ROBUST_SIMPLE, LABEL, REFERENCE};
+            e.kind = kinds[x];
+            e.n = x == 0 ? 3 : x == 1 ? 4 : x == 2 ? 9 : 3;
+            if (e.kind == FLEX_SIMPLE || e.kind == ROBUST_SIMPLE) e.end = 2;
+            if (e.kind == LABEL) { e.anchor = 4; e.mag = 1; e.rot = 3; }
+            if (e.kind == REFERENCE) { e.rep = 1; e.rot = 1; e.mag = 1; }
+        }
         else if (d == "xf") { e.xf = x + 1; e.sw = xf_scale_width[e.xf]; }
         else if (d == "off") e.off = x;
         else if (d == "end2") e.end = x ? 2 : 0;  // flush, extended
